@@ -13,6 +13,18 @@ ODD_T = [104, 66, 64, 115, 0, 122, 24, 200, 4200]
 
 LIMITS = sorted(set([0, 2**7, 2**8, 2**15, 2**16, 2**31, 2**32, 2**63, 2**64, 33, 127, 2**24, 2**53]))
 
+# ---- switches for patches proposed under /verif/docs that are NOT yet committed in /repo (flip to True after committing;
+# nothing else has to change) ----
+# docs/C07_convert_string_space.diff: mpt_convert_string returns 0 when nothing was converted (white space only).
+#   False: the model describes the unpatched function, the known finding convert_string_space_only is reported.
+#   True:  the model describes the patched function (driver argument "space-patched"), the finding must be gone;
+#          then also change the known_findings.json entry convert_string_space_only from "known" to "fixed".
+PATCHED_STRING_SPACE = False
+# docs/C07_valfmt_query.diff: mpt_convert_string(text, TypeValFmt, 0) stores through the null destination.
+#   False: the generator asks for a value format only WITH a destination (cases "ts 24 1 ...").
+#   True:  it also asks without one (cases "ts 24 0 ...": same answer as performing, no fault).
+PATCHED_VALFMT_QUERY = False
+
 KNOWN_LOCAL = [{
     "kind": "known", "property": "C07", "match": "convert_string_space_only",
     "what": "mpt_convert_string(from, numeric type, dest) with from = one or more white-space characters only: "
@@ -26,8 +38,10 @@ def _load_known(pid):
     """known_findings.json entries of C07; until the coordinator has added the entry described in
     docs/notes_C07.md the local copy above stands in for it"""
     k = _orig_load_known(pid)
-    if pid == "C07" and not any(e.get("match") == "convert_string_space_only" for e in k):
+    if pid == "C07" and not PATCHED_STRING_SPACE and not any(e.get("match") == "convert_string_space_only" for e in k):
         k = k + KNOWN_LOCAL
+    if pid == "C07" and PATCHED_STRING_SPACE:
+        k = [e for e in k if e.get("match") != "convert_string_space_only"]
     return k
 
 
@@ -175,10 +189,24 @@ class C07(DiffProperty):
                  "equivalence of that rounding with Flocq's generic round/ZnearestE on FLT formats, + differential correspondence check")
     assumptions = ["'C' locale", "LP64 / x86-64 type sizes", "iterator passed to mpt_iterator_consume behaves (value stays valid until advance)"]
 
+    # ------------------------------------------------------------------ the model driver gets the patch switch
+    def evaluate(self, cases, workdir, tagsuffix=""):
+        hx = vcheck.build_harness(self.harness_src, self.libs, extra=self.extra_harness_flags)
+        mx = vcheck.build_model(self.mlname, self.driver, self.extract_vo)
+        ided = ["c%d %s" % (i, c) for i, c in enumerate(cases)]
+        I, e1 = vcheck.run_cases(hx, ided, workdir, "impl" + tagsuffix, env=self.harness_env, args=self.harness_args)
+        M, e2 = vcheck.run_cases(mx, ided, workdir, "model" + tagsuffix,
+                                 args=["space-patched"] if PATCHED_STRING_SPACE else ["space-unpatched"])
+        res = []
+        for i, c in enumerate(cases):
+            k = "c%d" % i
+            res.append(self.compare(c, I.get("I", {}).get(k), M.get("M", {}).get(k), M.get("S", {}).get(k)))
+        return res, e1 + e2
+
     # ------------------------------------------------------------------ case structure
     def hdr_len(self, toks):
         k = toks[0]
-        return {"D": 4, "V": 4, "C": 4, "P": 1, "ti": 4, "tu": 4, "tw": 5, "tn": 3, "ts": 3, "tf": 4}[k]
+        return {"D": 4, "V": 4, "C": 4, "I": 5, "W": 3, "T": 1, "P": 1, "ti": 4, "tu": 4, "tw": 5, "tn": 3, "ts": 3, "tf": 4}[k]
 
     def split(self, case):
         t = case.split()
@@ -200,10 +228,14 @@ class C07(DiffProperty):
     def classify(self, case):
         t = case.split()
         cl = {"entry:" + t[0]}
-        if t[0] in ("D", "V", "C"):
+        if t[0] in ("D", "V", "C", "I"):
             cl.add("src:" + t[1])
             cl.add("dst:%s" % (chr(int(t[2])) if 32 < int(t[2]) < 127 else t[2]))
             cl.add("dest" if t[3] == "1" else "query")
+            if t[0] == "I":
+                cl.add("iterator:" + {"0": "value", "1": "no-value", "2": "advance-fails", "3": "no-value+advance-fails"}[t[4]])
+        elif t[0] == "W":
+            cl.add("source:" + t[1]); cl.add("dest" if t[2] == "1" else "query")
         elif t[0] in ("ti", "tu"):
             cl.add("vlen:" + t[1]); cl.add("base:" + t[2]); cl.add("dest" if t[3] == "1" else "query")
         elif t[0] == "tw":
@@ -211,7 +243,7 @@ class C07(DiffProperty):
         elif t[0] in ("tn", "ts"):
             cl.add("fmt:%s" % (chr(int(t[1])) if 32 < int(t[1]) < 127 else t[1])); cl.add("dest" if t[2] == "1" else "query")
         elif t[0] == "tf":
-            cl.add("fmt:" + t[1])
+            cl.add("fmt:" + t[1]); cl.add("range" if t[2] != "-" else "norange")
         return cl
 
     def shrink_candidates(self, case):
@@ -447,6 +479,43 @@ class C07(DiffProperty):
                     # thorough: every 16 bit value through the dispatch layers for the scalar targets
                     for t in SCALAR_T:
                         cases += self.batches([kind, s, str(t), "1"], list(range(lo, hi + 1)))
+        # ---- floating sources through mpt_value_convert / mpt_iterator_consume
+        for kind in ("V", "C"):
+            for s in "fde":
+                vals = self.float_values(rng, s, 40 if quick else 4000)
+                targets = [102, 100, 101, ord(s) - 32, 70, 68, 105, 120, 116, 99, 108, 115, 64, 200, 4200]
+                if kind == "V":
+                    targets.append(0)
+                for t in sorted(set(targets)):
+                    for hd in (1, 0):
+                        cases += self.batches([kind, s, str(t), str(hd)], vals)
+        # ---- mpt_iterator_consume: no value / advance fails / skip (type 0)
+        for s in ["c"] + SRC_INT + ["f", "d", "e"]:
+            if s in "fde":
+                vals = self.float_values(rng, s, 2 if quick else 200)[:24 if quick else 2000]
+            else:
+                lo, hi = SRC_RANGE[s]
+                vals = [v for v in (lo, lo + 1, -129, -128, -1, 0, 1, 33, 126, 127, 128, 255, 256, 32767, 32768, 65535, 65536,
+                                    2**31 - 1, 2**31, 2**32 - 1, 2**32, 2**63 - 1, 2**63, hi - 1, hi) if lo <= v <= hi]
+                vals = sorted(set(vals)) + ([rng.randrange(lo, hi + 1) for _ in range(200)] if not quick else [])
+            for t in [0, 105, 121, 98, 113, 120, 116, 108, 99, 102, 100, 101, 115, 73, 64, 200, ord(s), ord(s) - 32]:
+                for hd in (1, 0):
+                    for mode in (0, 1, 2, 3):
+                        cases += self.batches(["I", s, str(t), str(hd), str(mode)], vals)
+        # ---- mpt_value_convert on sources that are no numbers (string pointer, vectors, unknown codes, interfaces)
+        wt = ([0] + SCALAR_T + [115, 107, 64, 67, 66, 73, 83, 65, 90, 75, 76, 97, 122, 104, 24, 25, 26, 32, 1, 11, 128, 129, 134, 136, 137, 192,
+                                255, 256, 257, 2047, 2048, 2049, 2050, 2051, 2052, 2304, 4095, 4096, 4200, 74565, 2**32 + 105, 2**40])
+        wcode = {"s": 115, "s0": 115, "C4": 67, "C3": 67, "C0": 67, "I3": 73, "At": 64, "a": 97, "z": 122, "l": 108, "k": 107, "vf": 24,
+                 "tv": 25, "priv": 0x12345, "t20": 32, "it": 0x86, "id": 0x800, "cv": 0x80, "cv0": 0x80, "cvn": 0x80, "mt": 0x100,
+                 "mt0": 0x100, "mtn": 0x100, "m7": 0x7ff, "rf": 0x801, "rf0": 0x801}
+        for kind, code in wcode.items():
+            # a value without address (cvn, mtn) is not asked for a raw copy of itself
+            ts = [t for t in wt if not (kind in ("cvn", "mtn") and t == code)]
+            for hd in (1, 0):
+                cases.append(" ".join(["W", kind, str(hd)] + [str(t) for t in ts]))
+        # ---- the type traits table the dispatcher consults
+        cases.append(" ".join(["T"] + [str(k) for k in list(range(0, 300)) + [0x7fe, 0x7ff, 0x800, 0x801, 0x802, 0x803, 0x804, 0x8ff, 0x900,
+                                                                                  0x901, 0xfff, 0x1000, 70000, 2**32 + 99]]))
         # ---- dispatch table
         cases.append(" ".join(["P"] + [str(k) for k in list(range(0, 300)) + [0x7ff, 0x800, 0x801, 0x802, 0x803, 0x900, 0xfff, 0x1000, 70000]]))
         # ---- integer text
@@ -485,6 +554,31 @@ class C07(DiffProperty):
         for f in "fde":
             for hd in (1, 0):
                 cases += self.batches(["tf", f, "-", str(hd)], fitems[f])
+        # ---- the optional range of mpt_cfloat / cdouble / cldouble (two bit patterns of the type)
+        fb = {"f": {"0": "x0", "-0": "x80000000", "1": "x3f800000", "-1": "xbf800000", "inf": "x7f800000", "-inf": "xff800000", "nan": "x7fc00000",
+                    "max": "x7f7fffff", "-max": "xff7fffff", "0.1": "x3dcccccd", "2.5": "x40200000", "min": "x1", "1e10": "x501502f9"},
+              "d": {"0": "x0", "-0": "x8000000000000000", "1": "x3ff0000000000000", "-1": "xbff0000000000000", "inf": "x7ff0000000000000",
+                    "-inf": "xfff0000000000000", "nan": "x7ff8000000000000", "max": "x7fefffffffffffff", "-max": "xffefffffffffffff",
+                    "0.1": "x3fb999999999999a", "2.5": "x4004000000000000", "min": "x1", "1e10": "x4202a05f20000000"},
+              "e": {"0": "x0", "-0": "x80000000000000000000", "1": "x3fff8000000000000000", "-1": "xbfff8000000000000000",
+                    "inf": "x7fff8000000000000000", "-inf": "xffff8000000000000000", "nan": "x7fffc000000000000000",
+                    "max": "x7ffeffffffffffffffff", "-max": "xfffeffffffffffffffff", "0.1": "x3ffbcccccccccccccccd",
+                    "2.5": "x4000a000000000000000", "min": "x1", "1e10": "x40209502f90000000000"}}
+        rgs = [("0", "1"), ("-inf", "inf"), ("-max", "max"), ("1", "0"), ("-0", "0"), ("0", "-0"), ("0.1", "2.5"), ("-1", "1e10"), ("nan", "1"), ("0", "nan"),
+               ("nan", "nan"), ("min", "inf"), ("-inf", "-1"), ("1", "1"), ("inf", "inf")]
+        for f in "fde":
+            for lo, hi in rgs:
+                for hd in ((1, 0) if (lo, hi) in (("0", "1"), ("0.1", "2.5")) else (1,)):
+                    cases += self.batches(["tf", f, "%s:%s" % (fb[f][lo], fb[f][hi]), str(hd)], fitems[f])
+        # ---- the branches of mpt_convert_string that are no numbers: type 0, 'k', char vector, 's', TypeValFmt
+        vfitems = [hx(b) for b in (b"f", b"e10.3", b"+g8", b"x", b" 12.5 ", b"300", b"1.200", b"o", b"a4.2", b"G", b"12.", b"12.x", b"7", b"+", b"f-1",
+                                    b"0x10.010", b"256", b"255.126", b"255.127")]
+        for fmt in (0, 107, 67, 115):
+            for hd in (1, 0):
+                cases += self.batches(["ts", str(fmt), str(hd)], items + vfitems)
+        # (asking for a value format without destination faults until docs/C07_valfmt_query.diff is committed)
+        for hd in ((1, 0) if PATCHED_VALFMT_QUERY else (1,)):
+            cases += self.batches(["ts", "24", str(hd)], items + vfitems)
         return cases
 
 
